@@ -8,6 +8,7 @@ import (
 	"fmt"
 	"math"
 	"reflect"
+	"sort"
 	"strconv"
 	"strings"
 
@@ -181,17 +182,31 @@ func (m *machine) stmt(s *gen.Stmt, e *env) *ctl {
 	case "for", "fori":
 		av := m.eval(s.E, e)
 		arr, ok := av.([]interface{})
+		var objKeys []string
 		if !ok {
-			if _, isObj := av.(map[string]interface{}); isObj {
-				outside("for over an object: iteration order is unspecified")
+			obj, isObj := av.(map[string]interface{})
+			if !isObj {
+				fail("for over a non-array")
 			}
-			fail("for over a non-array")
+			// objects: every key once, in sorted key order (the outcome must be a function
+			// of the program text, so the order has to be a fixed one)
+			for k := range obj {
+				objKeys = append(objKeys, k)
+			}
+			sort.Strings(objKeys)
+			for _, k := range objKeys {
+				arr = append(arr, obj[k])
+			}
 		}
 		for i, el := range arr {
 			m.tick()
 			it := child(e)
 			if s.K == "fori" {
-				it.vars[s.Name] = int64(i)
+				if objKeys != nil {
+					it.vars[s.Name] = objKeys[i]
+				} else {
+					it.vars[s.Name] = int64(i)
+				}
 				it.vars[s.Name2] = el
 			} else {
 				it.vars[s.Name] = el
